@@ -3,7 +3,7 @@
    A table argument is "<rows> <cols> <rows*cols numbers>"; a vector is a 1 x len table; a
    permutation is "<len> <entries>" (decimal).
    Commands -> answers
-     MDS n T | KPCAK n T | ISO n T | CENTER n T      -> "T <rows> <cols> <numbers>"
+     MDS n T | KPCAK n T | ISO n T | ISO23 n T (Isomap stage before F23) | CENTER n T  -> "T <rows> <cols> <numbers>"
      LINK n D X | SQD n D X | KPCAX n D X (= KPCAK of LINK)  -> table n x n
      MEAN n D X                                      -> table 1 x D
      COV n D X | COV8 n D X (pre-F8)                 -> table D x D
@@ -134,6 +134,7 @@ let () =
            | "KPCAX" -> let n = take_dim toks in let d = take_dim toks in let x = take_table toks in
              print_table (kpca_matrix_q (nat_of_int n) (lin_kernel_q (nat_of_int n) (nat_of_int d) x))
            | "ISO" -> let n = take_dim toks in let t = take_table toks in print_table (isomap_matrix_q (nat_of_int n) t)
+           | "ISO23" -> let n = take_dim toks in let t = take_table toks in print_table (isomap_pre_f23_q (nat_of_int n) t)
            | "CENTER" -> let n = take_dim toks in let t = take_table toks in print_table (center_q (nat_of_int n) t)
            | "LINK" -> let n = take_dim toks in let d = take_dim toks in let x = take_table toks in
              print_table (lin_kernel_q (nat_of_int n) (nat_of_int d) x)
